@@ -162,3 +162,49 @@ Theorem C06_KNOWN_FINDING_second_application_frees_it :
   end = true.
 Proof. exact YV.Crdt.IntegrateCases.itg_complete_refuted_second_application. Qed.
 
+(* ---- appended: the end-to-end theorems about the block-level transcription (Crdt/Integrate.v, Crdt/Stash.v) ---- *)
+From Coq Require Import Sorted.
+From YV Require Import Crdt.Blocks Crdt.Merge Crdt.Integrate Crdt.Stash Crdt.MergeProofs Crdt.IntegrateProofs Crdt.StashProofs.
+(* END TO END, unbounded, about the transcription of apply_update / Update::integrate / BlockPicker / missing_dependency / the retry decision: for every causally closed history and every delivery sequence over it (any order, any cutting, any merging by merge_updates, duplicates, empty updates) in which every id is delivered at least once, the run never fails and ends with no stash, no hole, and exactly the ids of the history integrated   [Crdt/StashProofs.v: itg2_eventually_empty_total] *)
+Theorem C02_eventually_empty : forall H rho W us,
+  itg2_history H rho -> NoDup (map xid W) ->
+  Forall (itg2_deliverable H rho W) us ->
+  (forall i, itg2_cov H i = true -> itg2_cov_us us i = true) ->
+  exists s, itg2_run itg_empty us = itg_ok s /\
+    itg_obs_has_pending s = false /\ itg_obs_missing s = [] /\ itg_obs_pending s = [] /\
+    itg_obs_holes s = [] /\
+    (forall i, itg_has (itg_blocks s) i = itg2_cov H i) /\
+    (forall e, In e (itg_obs_ranges s) ->
+       exists n, snd e = [(0, n)] /\ 0 < n /\ forall j, itg2_cov H (mkid (fst e) j) = (j <? n)).
+Proof. exact YV.Crdt.StashProofs.itg2_eventually_empty_total. Qed.
+
+(* at every moment every delivered id is in the store or in the stash, and nothing outside the history is integrated   [Crdt/StashProofs.v: itg2_no_loss] *)
+Theorem C02_nothing_delivered_is_ever_dropped : forall H rho W us s,
+  itg2_history H rho -> NoDup (map xid W) ->
+  Forall (itg2_deliverable H rho W) us -> itg2_run itg_empty us = itg_ok s ->
+  (forall i, itg2_cov_us us i = true -> itg_has (itg_blocks s) i = true \/ itg2_cov_pend (itg_pend s) i = true) /\
+  (forall i, itg_has (itg_blocks s) i = true -> itg2_cov H i = true).
+Proof. exact YV.Crdt.StashProofs.itg2_no_loss. Qed.
+
+(* whenever apply_update returns, every stashed id is ranked above an id of the history that is not integrated yet (the invariant defect 0a72352 violated)   [Crdt/StashProofs.v: itg2_progress_step] *)
+Theorem C02_retry_decision_is_sufficient : forall H rho W s u s',
+  itg2_history H rho -> NoDup (map xid W) ->
+  itg2_I H rho W s -> itg2_deliverable H rho W u -> itg_apply_update_res s u = itg_ok s' ->
+  itg2_I H rho W s' /\
+  forall i, itg2_cov_pend (itg_pend s') i = true ->
+    exists j, itg2_cov H j = true /\ (rho j < rho i)%nat /\ itg_has (itg_blocks s') j = false.
+Proof. exact YV.Crdt.StashProofs.itg2_progress_step. Qed.
+
+(* no unwrap, no overwrite in BlockStore::push, no fuel exhaustion   [Crdt/StashProofs.v: itg2_apply_total] *)
+Theorem C02_apply_update_never_fails_on_deliverable_updates : forall H rho W s u, itg2_history H rho -> NoDup (map xid W) ->
+  itg2_I H rho W s -> itg2_deliverable H rho W u -> exists s', itg_apply_update_res s u = itg_ok s'.
+Proof. exact YV.Crdt.StashProofs.itg2_apply_total. Qed.
+
+(* non-vacuity of 'deliverable': every piece of a block of a causally closed block list is   [Crdt/StashProofs.v: itg2_pieces_deliverable] *)
+Theorem C02_pieces_of_a_closed_history_are_deliverable : forall H rho W u,
+  itg2_history H rho -> itg2_closed H rho ->
+  itg_update_wf (u_blocks (itg_abs_update u)) = true ->
+  (forall y, itg2_in (u_blocks (itg_abs_update u)) y ->
+     incl (units_of_block y) W /\ exists b, itg2_in H b /\ itg2_piece y b) ->
+  itg2_deliverable H rho W u.
+Proof. exact YV.Crdt.StashProofs.itg2_pieces_deliverable. Qed.
